@@ -1,0 +1,71 @@
+//go:build verif
+
+// Machine-checked contracts for package volume (read by /verif/govc; comment-only).
+
+package volume
+
+//@ func Ad.Compute
+//@ requires consumed(highs) == 0 && consumed(lows) == 0 && consumed(closings) == 0 && consumed(volumes) == 0 && len(highs) == len(lows) && len(highs) == len(closings) && len(highs) == len(volumes)
+//@ ensures[C02] len(result) == max(0, len(highs) - (0))
+//@ ensures[C03] consumed(highs) == len(highs) && consumed(lows) == len(lows) && consumed(closings) == len(closings) && consumed(volumes) == len(volumes) && closed(result)
+//@ ensures[C04] forall kk :: 0 <= kk && kk < len(result) ==> hor(result, kk) <= max(hor(highs, kk + (0)), max(hor(lows, kk + (0)), max(hor(closings, kk + (0)), hor(volumes, kk + (0)))))
+
+//@ func Cmf.Compute
+//@ requires c.Sum.Period >= 1 && consumed(highs) == 0 && consumed(lows) == 0 && consumed(closings) == 0 && consumed(volumes) == 0 && len(highs) == len(lows) && len(highs) == len(closings) && len(highs) == len(volumes)
+//@ ensures[C02] len(result) == max(0, len(highs) - (c.IdlePeriod()))
+//@ ensures[C03] consumed(highs) == len(highs) && consumed(lows) == len(lows) && consumed(closings) == len(closings) && consumed(volumes) == len(volumes) && closed(result)
+//@ ensures[C04] forall kk :: 0 <= kk && kk < len(result) ==> hor(result, kk) <= max(hor(highs, kk + (c.IdlePeriod())), max(hor(lows, kk + (c.IdlePeriod())), max(hor(closings, kk + (c.IdlePeriod())), hor(volumes, kk + (c.IdlePeriod())))))
+
+//@ func Emv.Compute
+//@ requires e.Sma.Period >= 1 && consumed(highs) == 0 && consumed(lows) == 0 && consumed(volumes) == 0 && len(highs) == len(lows) && len(highs) == len(volumes)
+//@ ensures[C02] len(result) == max(0, len(highs) - (e.IdlePeriod()))
+//@ ensures[C03] consumed(highs) == len(highs) && consumed(lows) == len(lows) && consumed(volumes) == len(volumes) && closed(result)
+//@ ensures[C04] forall kk :: 0 <= kk && kk < len(result) ==> hor(result, kk) <= max(hor(highs, kk + (e.IdlePeriod())), max(hor(lows, kk + (e.IdlePeriod())), hor(volumes, kk + (e.IdlePeriod()))))
+
+//@ func Fi.Compute
+//@ requires f.Ema.Period >= 1 && consumed(closings) == 0 && consumed(volumes) == 0 && len(closings) == len(volumes)
+//@ ensures[C02] len(result) == max(0, len(closings) - (f.IdlePeriod()))
+//@ ensures[C03] consumed(closings) == len(closings) && consumed(volumes) == len(volumes) && closed(result)
+//@ ensures[C04] forall kk :: 0 <= kk && kk < len(result) ==> hor(result, kk) <= max(hor(closings, kk + (f.IdlePeriod())), hor(volumes, kk + (f.IdlePeriod())))
+
+//@ func Mfi.Compute
+//@ requires m.Sum.Period >= 1 && consumed(highs) == 0 && consumed(lows) == 0 && consumed(closings) == 0 && consumed(volumes) == 0 && len(highs) == len(lows) && len(highs) == len(closings) && len(highs) == len(volumes)
+//@ ensures[C02] len(result) == max(0, len(highs) - (m.IdlePeriod()))
+//@ ensures[C03] consumed(highs) == len(highs) && consumed(lows) == len(lows) && consumed(closings) == len(closings) && consumed(volumes) == len(volumes) && closed(result)
+//@ ensures[C04] forall kk :: 0 <= kk && kk < len(result) ==> hor(result, kk) <= max(hor(highs, kk + (m.IdlePeriod())), max(hor(lows, kk + (m.IdlePeriod())), max(hor(closings, kk + (m.IdlePeriod())), hor(volumes, kk + (m.IdlePeriod())))))
+
+//@ func Mfm.Compute
+//@ requires consumed(highs) == 0 && consumed(lows) == 0 && consumed(closings) == 0 && len(highs) == len(lows) && len(highs) == len(closings)
+//@ ensures[C02] len(result) == max(0, len(highs) - (0))
+//@ ensures[C03] consumed(highs) == len(highs) && consumed(lows) == len(lows) && consumed(closings) == len(closings) && closed(result)
+//@ ensures[C04] forall kk :: 0 <= kk && kk < len(result) ==> hor(result, kk) <= max(hor(highs, kk + (0)), max(hor(lows, kk + (0)), hor(closings, kk + (0))))
+
+//@ func Mfv.Compute
+//@ requires consumed(highs) == 0 && consumed(lows) == 0 && consumed(closings) == 0 && consumed(volumes) == 0 && len(highs) == len(lows) && len(highs) == len(closings) && len(highs) == len(volumes)
+//@ ensures[C02] len(result) == max(0, len(highs) - (0))
+//@ ensures[C03] consumed(highs) == len(highs) && consumed(lows) == len(lows) && consumed(closings) == len(closings) && consumed(volumes) == len(volumes) && closed(result)
+//@ ensures[C04] forall kk :: 0 <= kk && kk < len(result) ==> hor(result, kk) <= max(hor(highs, kk + (0)), max(hor(lows, kk + (0)), max(hor(closings, kk + (0)), hor(volumes, kk + (0)))))
+
+//@ func Nvi.Compute
+//@ requires consumed(closings) == 0 && consumed(volumes) == 0 && len(closings) == len(volumes)
+//@ ensures[C02] len(result) == max(0, len(closings) - (1))
+//@ ensures[C03] consumed(closings) == len(closings) && consumed(volumes) == len(volumes) && closed(result)
+//@ ensures[C04] forall kk :: 0 <= kk && kk < len(result) ==> hor(result, kk) <= max(hor(closings, kk + (1)), hor(volumes, kk + (1)))
+
+//@ func Obv.Compute
+//@ requires consumed(closings) == 0 && consumed(volumes) == 0 && len(closings) == len(volumes)
+//@ ensures[C02] len(result) == max(0, len(closings) - (0))
+//@ ensures[C03] consumed(closings) == len(closings) && consumed(volumes) == len(volumes) && closed(result)
+//@ ensures[C04] forall kk :: 0 <= kk && kk < len(result) ==> hor(result, kk) <= max(hor(closings, kk + (0)), hor(volumes, kk + (0)))
+
+//@ func Vpt.Compute
+//@ requires consumed(closings) == 0 && consumed(volumes) == 0 && len(closings) == len(volumes)
+//@ ensures[C02] len(result) == max(0, len(closings) - (1))
+//@ ensures[C03] consumed(closings) == len(closings) && consumed(volumes) == len(volumes) && closed(result)
+//@ ensures[C04] forall kk :: 0 <= kk && kk < len(result) ==> hor(result, kk) <= max(hor(closings, kk + (1)), hor(volumes, kk + (1)))
+
+//@ func Vwap.Compute
+//@ requires v.Sum.Period >= 1 && consumed(closings) == 0 && consumed(volumes) == 0 && len(closings) == len(volumes)
+//@ ensures[C02] len(result) == max(0, len(closings) - (v.IdlePeriod()))
+//@ ensures[C03] consumed(closings) == len(closings) && consumed(volumes) == len(volumes) && closed(result)
+//@ ensures[C04] forall kk :: 0 <= kk && kk < len(result) ==> hor(result, kk) <= max(hor(closings, kk + (v.IdlePeriod())), hor(volumes, kk + (v.IdlePeriod())))
